@@ -22,6 +22,8 @@ props.prop(
     not_decided='fidelity of the file formats themselves (astropy.io, h5py, numpy), the factories\' type inference, encodings, '
                 'NaN/blank conventions: those quantify over array contents and external library behaviour',
     assumptions=['Table.write / h5py / fits write what they are given'])
+props.also('C19',
+           'that exporters never read category codes; that the subset mask reaches every written column also when it is applied as a filter condition of the writer')
 
 EXPORTERS = [
     ('glue.core.data_exporters.astropy_table.data_to_astropy_table', 0),
